@@ -92,6 +92,9 @@ def _flatten(body, depth, out):
             if stmt.finalbody:
                 out.append(f"{depth}:finally")
                 _flatten(stmt.finalbody, depth + 1, out)
+        elif isinstance(stmt, ast.FunctionDef):
+            out.append(f"{depth}:def {stmt.name}({ast.unparse(stmt.args)})")
+            _flatten(stmt.body, depth + 1, out)
         elif isinstance(stmt, ast.AnnAssign):
             value = f" = {ast.unparse(stmt.value)}" if stmt.value is not None else ""
             out.append(f"{depth}:{ast.unparse(stmt.target)}{value}")
